@@ -69,8 +69,12 @@ TABLE: list[tuple[str, str, bool, str, list[F]]] = [
             F("ti", "tuple[int, ...]", "prop", "tint", "()"),
             F("tsi", "tuple[str, int]", "prop", "tsi", '("k", 1)'),
             F("uid", "UserId", "prop", "str", 'UserId("u")'),
+            F("g", "float", "prop", "float", "0.0"),
+            F("op", "Op", "prop", "op", "Op.ADD"),
         ],
     ),
+    # field names that differ only in case (sort order must not depend on declaration order)
+    ("CaseMix", "Expr", False, "", [F("k", "str", "prop", "str", '""'), F("K", "str", "prop", "str", '""'), F("c", "Expr | None", "opt", "any", "None"), F("C", "Expr | None", "opt", "any", "None")]),
     ("FS", "Expr", False, "", [F("s", "frozenset[str]", "prop", "fs")]),
     (
         "Pair",
@@ -79,7 +83,7 @@ TABLE: list[tuple[str, str, bool, str, list[F]]] = [
         "",
         [
             F("left", "Expr | None", "opt", "any", "None"),
-            F("lhs", "Expr | None", "opt", "any", "None"),
+            F("lhs", "Expr | None", "opt", "any", "field(default=None, repr=False)"),
             F("right", "Expr | None", "opt", "any", "None"),
         ],
     ),
@@ -110,11 +114,12 @@ TABLE: list[tuple[str, str, bool, str, list[F]]] = [
     # field names that sort before "__type"
     ("Upper", "Expr", False, "", [F("Name", "str", "prop", "str"), F("ID", "int", "prop", "int", "0"), F("_x", "str", "prop", "str", '""')]),
     # a class that a run may define twice (class factory called twice / re-run cell): see redefine_dyn()
-    ("Dyn", "Expr", False, "", [F("value", "int", "prop", "int", "0"), F("unit", "str", "prop", "str", '"kg"')]),
+    ("Dyn", "Expr", False, "", [F("value", "int", "prop", "int", "0"), F("unit", "str", "prop", "str", '"kg"'), F("extra", "Expr | None", "opt", "any", "None")]),
     # multiple inheritance (allowed for non-slotted subclasses)
-    ("Located", "Expr", False, "", [F("line", "int", "prop", "int", "0")]),
+    ("Located", "Expr", False, "", [F("line", "int", "prop", "int", "0"), F("doc", "Expr | None", "opt", "any", "None")]),
     ("Typed", "Expr", False, "", [F("ty", "str", "prop", "str", '""')]),
     ("Lit", "Typed, Located", False, "", [F("v", "str", "prop", "str", '""')]),
+    ("Both", "Typed, Located", False, "", []),
     (
         "Boom",
         "Expr",
@@ -152,6 +157,12 @@ def _next_serial() -> int:
 class Color(enum.Enum):
     RED = "red"
     GREEN = "green"
+
+
+class Op(str, enum.Enum):
+    """the string-enum idiom: str(Op.ADD) is 'Op.ADD', the raw characters are '+'"""
+    ADD = "+"
+    SUB = "-"
 
 
 class Tok(SerializableType):
@@ -219,6 +230,7 @@ M = _load()
 CLS: dict[str, type] = {name: getattr(M, name) for name, *_ in TABLE}
 Color = M.Color
 Tok = M.Tok
+Op = M.Op
 
 # ---- harness-side field knowledge (from TABLE, in *declared* (non-permuted) order) -------------------
 
@@ -254,7 +266,7 @@ CHILD_FIELDS: dict[str, list[F]] = _Tab({n: [f for f in fs if f.kind != "prop"] 
 PROP_FIELDS: dict[str, list[F]] = _Tab({n: [f for f in fs if f.kind == "prop"] for n, fs in FIELDS.items()})
 
 NODE_CLASSES = [n for n in _OWN if n != "Expr"]
-LEAF_CLASSES = ["LeafA", "LeafB", "LeafA2", "Meta", "Vals", "FS", "Carrier", "Serial", "Upper", "Lit", "Located", "Typed", "Dyn"]
+LEAF_CLASSES = ["LeafA", "LeafB", "LeafA2", "Meta", "Vals", "FS", "Carrier", "Serial", "Upper", "Lit", "Located", "Typed", "Dyn", "CaseMix", "Both"]
 INNER_CLASSES = ["Pair", "Seq", "Fixed", "Mixed", "Falsy"]
 
 def redefine_dyn() -> None:
@@ -314,6 +326,14 @@ ORIGINS: dict[str, Any] = {
 ORIGINS["m:aa"] = MultiOrigin([ORIGINS["c:a:0-5"], ORIGINS["c:a:6-10"]])
 ORIGINS["m:ab"] = MultiOrigin([ORIGINS["c:a:0-5"], ORIGINS["x:b:/r/t"]])
 ORIGIN_KEYS = list(ORIGINS)
+# unequal origins that share one fqn (fqn = <source uri>::<start index>-<end index>), and an entire-source position:
+# only used where ids are not judged by their origin (C04, C16)
+from pyoak.origin import EntireSourcePosition, Origin as _Origin  # noqa: E402
+
+ORIGINS["c:a:0-0"] = _code("a", 0, 0)
+ORIGINS["c:a:0-5@l2"] = CodeOrigin(SRC["a"], get_code_range(0, 2, 0, 5, 2, 5))
+ORIGINS["e:a"] = _Origin(SRC["a"], EntireSourcePosition())
+EXTRA_ORIGIN_KEYS = ["c:a:0-0", "c:a:0-5@l2", "e:a"]
 
 # ---- values -----------------------------------------------------------------------------------------
 from pathlib import Path  # noqa: E402
@@ -377,6 +397,7 @@ def pool_for(vt: str) -> list[Any]:
         "tsi": TSI_POOL,
         "fs": FS_POOL,
         "tok": TOK_POOL,
+        "op": ["ADD", "SUB"],
     }[vt]
 
 
@@ -394,6 +415,8 @@ def decode(vt: str, j: Any) -> Any:
         return frozenset(j) if not isinstance(j, dict) else _fs_ordered(j["order"])
     if vt == "tok":
         return Tok(j)
+    if vt == "op":
+        return Op[j]
     raise KeyError(vt)
 
 
@@ -418,6 +441,8 @@ def encode(vt: str, v: Any) -> Any:
         return sorted(v)
     if vt == "tok":
         return v.v
+    if vt == "op":
+        return v.name
     raise KeyError(vt)
 
 
@@ -427,6 +452,8 @@ def canon(v: Any) -> Any:
         return ("set", tuple(sorted((canon(e) for e in v), key=repr)))
     if isinstance(v, tuple):
         return ("tuple", tuple(canon(e) for e in v))
+    if isinstance(v, Op):
+        return ("Op", v.name)
     if isinstance(v, Color):
         return ("Color", v.name)
     if isinstance(v, Path):
